@@ -2,3 +2,7 @@ import Lean.Meta.Tactic.Simp.RegisterCommand
 /-! the simp set `py_norm`: every definition of the `Py` prelude (Model/Py.lean), so that a translated core applied to
     constructor-headed values always evaluates, whichever prelude operators the source happens to use -/
 register_simp_attr py_norm
+
+/-- the simp set `py_core`: every definition tools/py2lean.py generates (each is tagged with it), so that a bridge can unfold
+    a translated core without naming its helpers — a helper a refactoring extracts is unfolded like the rest -/
+register_simp_attr py_core
